@@ -639,6 +639,90 @@ Proof.
     destruct (ai_client ai) as [[|x c]|]; discriminate.
 Qed.
 
+(* ------------------------------------------------------------------ the claims inside an assertion *)
+(* (a) nothing reads sub / azp / client_id of a signed JWT: the same request with ANY other values for them gets
+   the same answer (same identity, same refusal, same replay cache) *)
+Lemma unpack_inner kj now s a c t : unpack kj now (token_with_inner s a c t) = unpack kj now t.
+Proof. destruct t; reflexivity. Qed.
+
+Lemma jws_verify_inner cx ep now m hs s a c t jdb :
+  jws_verify cx ep now m hs (token_with_inner s a c t) jdb = jws_verify cx ep now m hs t jdb.
+Proof. destruct t; reflexivity. Qed.
+
+Lemma request_param_verify_inner cx now s a c t jdb :
+  request_param_verify cx now (token_with_inner s a c t) jdb = request_param_verify cx now t jdb.
+Proof. destruct t; reflexivity. Qed.
+
+Lemma usable_inner s a c rq m : usable (rq_with_inner s a c rq) m = usable rq m.
+Proof.
+  destruct m; cbn; try reflexivity.
+  - destruct (r_assertion rq); reflexivity.
+  - destruct (r_assertion rq); reflexivity.
+  - destruct (r_request rq); reflexivity.
+Qed.
+
+Lemma verify_method_inner cx ep s a c rq now jdb m :
+  verify_method cx ep (rq_with_inner s a c rq) now jdb m = verify_method cx ep rq now jdb m.
+Proof.
+  destruct m; cbn [verify_method rq_with_inner r_hdr r_client_id r_client_secret r_access_token r_assertion r_request];
+    try reflexivity.
+  - destruct (r_assertion rq) as [t|]; cbn [option_map]; [apply jws_verify_inner|reflexivity].
+  - destruct (r_assertion rq) as [t|]; cbn [option_map]; [apply jws_verify_inner|reflexivity].
+  - destruct (r_request rq) as [t|]; cbn [option_map]; [apply request_param_verify_inner|reflexivity].
+Qed.
+
+Lemma loop_inner cx ep s a c rq now ms : forall jdb,
+  loop cx ep (rq_with_inner s a c rq) now ms jdb = loop cx ep rq now ms jdb.
+Proof.
+  induction ms as [|m rest IH]; intros jdb; cbn [loop]; [reflexivity|].
+  rewrite usable_inner, verify_method_inner.
+  destruct (usable rq m); [|apply IH].
+  destruct (verify_method cx ep rq now jdb m) as [[ai|e|] j1]; try reflexivity; try apply IH.
+  destruct (after_verify cx ep now ai); try reflexivity. apply IH.
+Qed.
+
+Theorem client_authentication_inner cx ep s a c rq now jdb :
+  client_authentication cx ep (rq_with_inner s a c rq) now jdb = client_authentication cx ep rq now jdb.
+Proof. unfold client_authentication, verify_client. now rewrite loop_inner. Qed.
+
+Theorem parse_request_inner cx ep s a c rq now jdb :
+  parse_request cx ep (rq_with_inner s a c rq) now jdb = parse_request cx ep rq now jdb.
+Proof. unfold parse_request. rewrite client_authentication_inner. reflexivity. Qed.
+
+Theorem inner_claims_irrelevant cx ep s a c rq now jdb :
+  client_authentication cx ep (rq_with_inner s a c rq) now jdb = client_authentication cx ep rq now jdb
+  /\ parse_request cx ep (rq_with_inner s a c rq) now jdb = parse_request cx ep rq now jdb.
+Proof. split; [apply client_authentication_inner|apply parse_request_inner]. Qed.
+
+(* (b) the identity a request accepted through a signed JWT is processed under is the JWT's iss - the issuer
+   under whose registered key the signature verified (the signer) - for every value of the other claims *)
+Theorem assertion_identity cx ep rq now jdb jdb' c rc ai j :
+  parse_request cx ep rq now jdb = (Ok (PGeneric c rc true), jdb') ->
+  client_authentication cx ep rq now jdb = (Ok (Some ai), jdb') ->
+  used_jwt rq (ai_method ai) = Some j ->
+  c = j_iss j /\ rc = j_iss j /\ exists X, j_iss j = Some X /\ signed_by_client cx X j.
+Proof.
+  intros Hp Ha Hu.
+  destruct (processed_as_proved _ _ _ _ _ _ _ _ Hp) as [ai0 [X [Ha0 [_ [-> [-> [_ Hc]]]]]]].
+  rewrite Ha in Ha0. inversion Ha0; subst ai0; clear Ha0.
+  unfold used_jwt in Hu.
+  inversion Hc; subst;
+    match goal with Hm : _ = ai_method ai |- _ => rewrite <- Hm in Hu end; try discriminate;
+    match goal with Hr : _ rq = Some (Jwt ?j0), Hf : jwt_fresh _ ?j0 _ _ _ |- _ =>
+      rewrite Hr in Hu; inversion Hu; subst; destruct Hf as [Hi _]; rewrite Hi; repeat split; eauto end.
+Qed.
+
+(* in particular a sub (azp, client_id claim) that differs from iss never becomes the identity *)
+Theorem subject_never_identity cx ep rq now jdb jdb' c rc ai j B :
+  parse_request cx ep rq now jdb = (Ok (PGeneric c rc true), jdb') ->
+  client_authentication cx ep rq now jdb = (Ok (Some ai), jdb') ->
+  used_jwt rq (ai_method ai) = Some j ->
+  (j_sub j = Some B \/ j_azp j = Some B \/ j_cid j = Some B) -> j_iss j <> Some B ->
+  rc <> Some B /\ c <> Some B.
+Proof.
+  intros Hp Ha Hu _ Hne. destruct (assertion_identity _ _ _ _ _ _ _ _ _ _ Hp Ha Hu) as [-> [-> _]]. auto.
+Qed.
+
 (* ------------------------------------------------------------------ C01_unforgeable (symbolic, Lib/Crypto.v) *)
 Definition vkey_skey (v : vkey) : skey :=
   match v with VOct s => KSym s | VRsa n => KRsa n | VEc n => KEc n end.
@@ -659,7 +743,7 @@ Section Unforgeable.
   Variable sk : skey -> nat.        (* numbering of key material: which Crypto key a symbolic key is *)
 
   Definition claims_term (j : jwt) : term :=
-    Pair (opt_atom (j_iss j))
+    Pair (Pair (opt_atom (j_iss j)) (Pair (opt_atom (j_sub j)) (Pair (opt_atom (j_azp j)) (opt_atom (j_cid j)))))
       (Pair (opt_atom (j_jti j))
          (Pair (optz_atom (j_exp j))
             (match j_aud j with Some l => Pair (Atom [1%N]) (Atom (join [0%N] l)) | None => Atom [] end))).
